@@ -264,7 +264,10 @@ fn merge<E>(acc: &mut Option<Result_<E>>, r: Result_<E>) {
             a.transitions += r.transitions;
             a.paths_executed += r.paths_executed;
             a.events_executed += r.events_executed;
-            a.completed_depth = a.completed_depth.min(r.completed_depth);
+            let both_complete = a.completed_depth == a.requested_depth && r.completed_depth == r.requested_depth;
+            a.completed_depth = if both_complete { a.completed_depth.max(r.completed_depth) } else { a.completed_depth.min(r.completed_depth) };
+            a.requested_depth = a.requested_depth.max(r.requested_depth);
+            a.devs = a.devs.max(r.devs);
             a.exhaustive &= r.exhaustive;
             for (i, n) in r.frontier_sizes.iter().enumerate() {
                 if i < a.frontier_sizes.len() {
@@ -300,15 +303,18 @@ fn main() {
         ctx.finish_replay(explore::replay::<Sys>("C17", move || Sys::new(sp.clone()), &w));
     }
 
-    // Depth counts the Config event. Deviation budget = number of backward clock steps.
-    let (depth, devs) = if thorough { (1 + 6, 2) } else { (1 + 5, 2) };
+    // Depth counts the Config event; deviation budget = number of backward clock steps.
+    // quick: 5 requests with up to 2 backward steps; thorough adds 6 requests with up to 1.
+    let passes: Vec<(usize, usize)> = if thorough { vec![(1 + 5, 2), (1 + 6, 1)] } else { vec![(1 + 5, 2)] };
     let mut acc: Option<Result_<Ev>> = None;
-    for cfg in &all_configs {
-        // One exploration per (capacity, rate) keeps the state table small; the root menu is
-        // restricted to that configuration, histories stay self-contained.
-        let sp = Space { configs: vec![*cfg], dts: dts.clone(), dts_exempt: dts_exempt.clone() };
-        let r = explore::explore("C17", move || Sys::new(sp.clone()), Bounds::new(depth, devs).wall_secs(if thorough { 240 } else { 30 }));
-        merge(&mut acc, r);
+    for &(depth, devs) in &passes {
+        for cfg in &all_configs {
+            // One exploration per (capacity, rate) keeps the state table small; the root menu is
+            // restricted to that configuration, histories stay self-contained.
+            let sp = Space { configs: vec![*cfg], dts: dts.clone(), dts_exempt: dts_exempt.clone() };
+            let r = explore::explore("C17", move || Sys::new(sp.clone()), Bounds::new(depth, devs).wall_secs(900));
+            merge(&mut acc, r);
+        }
     }
     let res = acc.unwrap();
     let mut cov = res.coverage(
@@ -317,7 +323,8 @@ fn main() {
          a state is (bucket contents relative to the clock, sub-second clock phase, per-host timeline of limited requests); one exploration per (capacity, rate), counts summed",
     );
     cov.insert("alphabet".into(), json!({"dt_ms": dts, "dt_ms_exempt": dts_exempt, "hosts": HOSTS, "nids": NIDS, "capacity": [1, 2, 3], "rate": [0.2, 0.5, 1.0, 1.5]}));
-    cov.insert("explorations".into(), json!(all_configs.len()));
+    cov.insert("explorations".into(), json!(all_configs.len() * passes.len()));
+    cov.insert("passes_depth_devs".into(), json!(passes));
     let violations: Violations = res.violations;
     ctx.finish(
         cov,
